@@ -186,7 +186,10 @@ def unsupported_visible_before_wakeup():
             c.protocol_version = pv
             got = []
             c._requests[0] = (got.append, PR.ProtocolHandler.decode_message, None)
-            msg = b'Invalid or unsupported protocol version: %d' % pv
+            # the wording differs between servers (Cassandra 1.2/2.0 and ScyllaDB; 2.1-4.x; ...): all carry the same phrase
+            msg = [b'Invalid or unsupported protocol version: %d' % pv,
+                   b'Invalid or unsupported protocol version (%d); supported versions are (3/v3, 4/v4, 5/v5-beta)' % pv,
+                   b'Invalid or unsupported protocol version %d. Supported versions are between 3 and 4.' % pv][(pv + sv) % 3]
             body = struct.pack('>i', 0x000A) + struct.pack('>H', len(msg)) + msg
             if sv < 3:
                 frame = struct.pack('>BBbB', 0x80 | sv, 0, 0, 0) + struct.pack('>i', len(body)) + body
@@ -210,6 +213,68 @@ def unsupported_visible_before_wakeup():
     if problems:
         return '; '.join(problems[:3]) + (' (+%d more)' % (len(problems) - 3) if len(problems) > 3 else '')
     return None
+
+
+def reactor_rejection_probe():
+    """What Connection.factory() finds when it wakes up, per reactor class whose close() can run without an event loop
+    (gevent, eventlet; asyncio and twisted are driven by C10/C11/C47): defunct() records the server's rejection in last_error,
+    then calls the reactor's close(), then sets connected_event.  The negotiation loop needs, at the moment the event fires,
+    the unsupported-version flag for an ordinary rejection and the ProtocolException itself (is_beta_protocol_error) for a
+    beta rejection -- a close() that overwrites last_error loses the latter.  Returns None or a description."""
+    import importlib, struct, threading
+    from cassandra.connection import Connection
+    import cassandra.protocol as PR
+    problems = []
+    for modname, clsname in (('cassandra.io.geventreactor', 'GeventConnection'), ('cassandra.io.eventletreactor', 'EventletConnection')):
+        try:
+            cls = getattr(importlib.import_module(modname), clsname)
+        except Exception:
+            continue
+        for kind, msg in (('unsupported', b'Invalid or unsupported protocol version (5); supported versions are (3/v3, 4/v4)'),
+                          ('beta', b'Beta version of the protocol used (5/v5-beta), but USE_BETA flag is unset')):
+            snap = []
+
+            class Ev(object):
+                def __init__(self, conn):
+                    self._e = threading.Event()
+                    self.conn = conn
+
+                def set(self):
+                    if not snap:
+                        snap.append((self.conn.last_error, bool(self.conn.is_unsupported_proto_version)))
+                    self._e.set()
+
+                def is_set(self):
+                    return self._e.is_set()
+
+                def wait(self, t=None):
+                    return self._e.wait(t)
+
+                def clear(self):
+                    self._e.clear()
+            try:
+                c = cls.__new__(cls)
+                Connection.__init__(c, '127.0.0.1', protocol_version=5)
+                c._read_watcher = c._write_watcher = None
+                c._socket = None
+                c.connected_event = Ev(c)
+                c._requests[0] = (c._handle_startup_response, PR.ProtocolHandler.decode_message, None)
+                body = struct.pack('>i', 0x000A) + struct.pack('>H', len(msg)) + msg
+                c._iobuf.write(struct.pack('>BBhB', 0x84, 0, 0, 0) + struct.pack('>i', len(body)) + body)
+                c.process_io_buffer()
+            except Exception as e:
+                problems.append('%s, %s rejection: probe raised %r' % (clsname, kind, e))
+                continue
+            if not snap:
+                problems.append('%s, %s rejection: connected_event never set' % (clsname, kind))
+                continue
+            err, flag = snap[0]
+            if kind == 'unsupported' and not flag:
+                problems.append('%s: unsupported-version flag not set when connected_event fires' % clsname)
+            if kind == 'beta' and not (isinstance(err, PR.ProtocolException) and getattr(err, 'is_beta_protocol_error', False)):
+                problems.append('%s: after a beta-version rejection the waiter of connected_event finds last_error=%r instead of the '
+                                'server\'s ProtocolException (is_beta_protocol_error): _try_connect cannot step down' % (clsname, err))
+    return '; '.join(problems[:3]) if problems else None
 
 
 def zl(v):
@@ -304,6 +369,15 @@ def run(ctx):
     if prob:
         ctx.violation('connection.unsupported-flag-after-wakeup' if 'was set before' in prob else 'connection.rejection-frame-not-recognised', prob, case={'probe': 'unsupported_visible_before_wakeup'},
                       kind='interleaving', expected='flag set before connected_event', actual=prob, theorem='C41 (input of the loop model)')
+    try:
+        prob = reactor_rejection_probe()
+    except Exception as e:
+        prob = None
+        ctx.proof_broken.append(('harness:reactor_rejection_probe', repr(e)[:300]))
+    ctx.case(['reactor-rejection'], nontrivial=True)
+    if prob:
+        ctx.violation('connection.rejection-lost-by-reactor-close', prob, case={'probe': 'reactor_rejection_probe'}, kind='interleaving',
+                      expected='the server rejection is what the waiter of connected_event finds', actual=prob, theorem='C41 (input of the loop model)')
     # get_lower_supported / predicates: translation validation on a range of integers
     pcases, pmeta = [], []
     for v in list(range(-3, 80)) + [127, 128, 255, 256, 2**31]:
@@ -332,6 +406,11 @@ def run(ctx):
 
 def replay(ctx, rp):
     c = rp.get('case')
+    if c and c.get('probe') == 'reactor_rejection_probe':
+        prob = reactor_rejection_probe()
+        print('replay probe: %s' % (prob or 'ok'))
+        print(('VIOLATION property=C41 replay=%s' % ctx.replay_path) if prob else 'not reproduced')
+        return 1 if prob else 0
     if c and c.get('probe'):
         prob = unsupported_visible_before_wakeup()
         print('replay probe: %s' % (prob or 'ok'))
